@@ -448,7 +448,7 @@ class Rendering:
             return self.num(q_bare(si_value, enclosing, dim3))
         own = self.sys_draw(self.r) if self.same is None else self.same
         num = q_bare(si_value, own, dim3)
-        ustr = si.unit_string(own, dim3, style=self.r.choice([0, 1]))
+        ustr = si.unit_string(own, dim3, style=self.r.choice([0, 1, 2, 3]))
         if form == "str":
             return "%r %s" % (num, ustr)
         from strengths.units import UnitValue
@@ -695,7 +695,7 @@ def _q_json(rd, si_value, dim3, enclosing):
     if form == "bare":
         return q_bare(si_value, enclosing, dim3)
     own = rd.sys_draw(rd.r) if rd.same is None else rd.same
-    return "%r %s" % (q_bare(si_value, own, dim3), si.unit_string(own, dim3, style=rd.r.choice([0, 1])))
+    return "%r %s" % (q_bare(si_value, own, dim3), si.unit_string(own, dim3, style=rd.r.choice([0, 1, 2, 3])))
 
 
 def _per_env_json(rd, v, dim3, enclosing):
